@@ -7,12 +7,16 @@
   They hold for every 32-bit input word and every stack below (≥ 16 deep so that no zero padding
   is involved), which is returned untouched.
 
-  Whole-function statements (`hash_2to1`, `hash_1to1`, `hash_memory`, BLAKE3, Keccak-256) are not
+  `native::hash_memory_even` (the RPO sponge loop over memory) is proved whole, for every number of
+  double words, and tied to the model's `Rpo.hashElements` (= `Rpo256::hash_elements`, itself
+  compared with miden-crypto on every run).  The other whole-function statements (`hash_2to1`,
+  `hash_1to1`, sha256 `hash_memory`, BLAKE3, Keccak-256) are not
   proved: they are decided by the three-way correspondence run (real VM = reference crates = Lean
   reference = Lean executor on the compiled MAST); see `sha256_compress_partial` below for what is
   missing.
 -/
 import Miden.Lemmas.HashTac
+import Miden.Lemmas.HashMem
 namespace Miden.C17
 open Miden Spec.H
 set_option linter.unusedSimpArgs false
@@ -205,6 +209,48 @@ theorem native_state_to_digest_spec (vm : Vm) (c0 c1 c2 c3 b0 b1 b2 b3 a0 a1 a2 
   rw [stackRun_pure _ (by decide), hs]
   simp only [Generated.native_state_to_digest, pure_exec, *]
 
+
+/-- **`native::hash_memory_even`** (MAST regenerated from native.masm): for every initial hasher state
+    `v` (capacity, rate — natural order; on the stack reversed), every start address and every number
+    `K` of double words with the end address at most 2^32, a completed execution leaves the state after
+    `K` sponge steps of the RPO permutation over the memory words `start .. start+2K-1` in address
+    order (`HashMem.hashEven`), both pointers equal to the end address, and memory, frame pointer,
+    context and the rest of the stack untouched. -/
+theorem native_hash_memory_even_spec (env : Env) (fuel : Nat) (vm vm' : Vm) (v : List Nat) (start K : Nat)
+    (rest : List Nat) (hv : v.length = 12)
+    (hs : vm.stack = v.reverse ++ start :: (start + 2 * K) :: rest) (hrest : 2 ≤ rest.length)
+    (he : start + 2 * K ≤ 4294967296)
+    (h : Vm.exec env fuel Generated.native_hash_memory_even vm = .ok vm') :
+    vm'.stack = (HashMem.hashEven vm.ctx vm.mem K start v).reverse ++ (start + 2 * K) :: (start + 2 * K) :: rest ∧
+      vm'.mem = vm.mem ∧ vm'.fmp = vm.fmp ∧ vm'.ctx = vm.ctx :=
+  HashMem.hash_memory_even_spec env fuel vm vm' v start K rest hv hs hrest he h
+
+/-- Started from the all-zero state (what `hash_memory` sets up for an even number of words), the
+    digest part of the final state is `Rpo256::hash_elements` of the `8K` field elements stored in
+    memory at `start .. start+2K-1`. -/
+theorem native_hash_memory_even_is_hash_elements (env : Env) (fuel : Nat) (vm vm' : Vm) (start K : Nat)
+    (rest : List Nat)
+    (hs : vm.stack = List.replicate 12 0 ++ start :: (start + 2 * K) :: rest) (hrest : 2 ≤ rest.length)
+    (he : start + 2 * K ≤ 4294967296)
+    (h : Vm.exec env fuel Generated.native_hash_memory_even vm = .ok vm') :
+    Rpo.digestOf ((vm'.stack.take 12).reverse) = Rpo.hashElements (HashMem.memEls vm.ctx vm.mem start K) := by
+  have hs2 : vm.stack = (List.replicate 12 0).reverse ++ start :: (start + 2 * K) :: rest := by
+    rw [hs, List.reverse_replicate]
+  obtain ⟨h1, _⟩ := HashMem.hash_memory_even_spec env fuel vm vm' _ start K rest (by simp) hs2 hrest he h
+  have hl := HashMem.hashEven_len vm.ctx vm.mem K start (List.replicate 12 0) (by simp)
+  rw [h1, List.take_append_of_le_length (by rw [List.length_reverse, hl]; exact Nat.le_refl _),
+    List.take_of_length_le (by rw [List.length_reverse, hl]; exact Nat.le_refl _), List.reverse_reverse]
+  exact HashMem.hashEven_is_hashElements vm.ctx vm.mem K start
+
+/-- The sponge steps, spelled out: no word absorbed leaves the state alone; one more double word is
+    one more overwrite-mode absorption followed by the permutation. -/
+theorem hashEven_zero (ctx : Nat) (m : Mem) (a : Nat) (v : List Nat) : HashMem.hashEven ctx m 0 a v = v := rfl
+theorem hashEven_succ (ctx : Nat) (m : Mem) (i a : Nat) (v : List Nat) :
+    HashMem.hashEven ctx m (i + 1) a v
+      = Rpo.permute ((HashMem.hashEven ctx m i a v).take 4 ++ (m.read ctx (a + 2 * i)).toList
+          ++ (m.read ctx (a + 2 * i + 1)).toList) :=
+  HashMem.hashEven_succ ctx m i a v
+
 /-! What is missing for the whole compression function: `Spec.H.Sha256.compress` is 64 applications
     of `Sha256.round` (proved above for the compiled `consume_message_word`) to words produced by the
     schedule recurrence (proved above for `compute_message_schedule_word`); the composition through
@@ -217,5 +263,12 @@ example : (stackRun Generated.sha256_small_sigma_0 { stack := 0x12345678 :: List
 example : (stackRun Generated.sha256_consume_message_word
     { stack := [1, 2, 3, 4, 5, 6, 7, 8, 0x428a2f98, 0x61626380] ++ List.replicate 22 9 }).toOption
     = some (Sha256.round [1, 2, 3, 4, 5, 6, 7, 8] (0x428a2f98, 0x61626380) ++ List.replicate 22 9) := by decide
+
+-- the hash_memory_even hypotheses are met and the loop really runs (two double words)
+example : ((Vm.exec {} 20 Generated.native_hash_memory_even
+      { stack := List.replicate 12 0 ++ [100, 104, 5, 6],
+        mem := [((0, 100), ⟨1, 2, 3, 4⟩), ((0, 101), ⟨5, 6, 7, 8⟩), ((0, 102), ⟨9, 10, 11, 12⟩)] }).toOption.map
+      (fun v => (Rpo.digestOf ((v.stack.take 12).reverse), v.stack.drop 12)))
+    = some (Rpo.hashElements [1, 2, 3, 4, 5, 6, 7, 8, 9, 10, 11, 12, 0, 0, 0, 0], [104, 104, 5, 6]) := by decide +kernel
 
 end Miden.C17
